@@ -68,7 +68,10 @@ type gen struct {
 	prev     string // previous token text ("" at file start)
 	trail    cls    // class of comments trailing the previous token
 	capMay   bool   // inside a construct the formatter drops on purpose: nothing is "must"
+	pendNL   bool   // the next gap must contain a line break
 	noCmt    bool   // program without comments
+	noMay    bool   // no comments between the tokens of one item (class "may")
+	assume   map[string]bool // findings assumed known: their signatures are excluded by construction
 	cmtPct   int    // chance of a comment per slot
 	nlPct    int    // chance of a voluntary line break per free gap
 	wild     bool   // odd whitespace characters (\r\n, \f, \v, runs)
@@ -168,23 +171,41 @@ func (g *gen) cmtBody(label string) string {
 	for i := 0; i < n; i++ {
 		sb.WriteString(rapid.SampledFrom(cmtAlphabet).Draw(g.t, label+"c"))
 	}
-	return sb.String()
+	return g.noTab(sb.String())
+}
+
+// noTab: finding C20-F2 (a tab inside a string or comment is rewritten by the tabwriter); when it is
+// listed as known the generator keeps tabs out of strings and comments.
+func (g *gen) noTab(s string) string {
+	if g.assume["C20-F2"] {
+		return strings.ReplaceAll(s, "\t", " ")
+	}
+	return s
 }
 
 func sanitizeBlock(s string) string {
-	// a block comment ends at the first "*/"; the scanner also needs at least one char between
-	// "/*" and "*/" handled by its state machine ("/*/" does not close)
-	s = strings.ReplaceAll(s, "*/", "* /")
-	if strings.HasSuffix(s, "/") { // "/*x/" + "*/" fine, but "...*" + "/" is excluded above
-		s += " "
+	// scanDocument closes a block comment at the first '/' that follows ANY earlier '*' of the
+	// body (its half-close state is never reset), so "/* 2 * 3 / 4 */" ends after "3 /".  Sources
+	// the scanner lexes differently from what was meant are outside the generator's domain: after
+	// the first '*' of a body no '/' is emitted.
+	var sb strings.Builder
+	star := false
+	for _, r := range s {
+		if r == '*' {
+			star = true
+		}
+		if r == '/' && star {
+			r = '|'
+		}
+		sb.WriteRune(r)
 	}
-	return s
+	return sb.String()
 }
 
 func (g *gen) lineComment(c cls, label string) string {
 	body := g.cmtBody(label)
 	txt := "//" + body
-	g.comments = append(g.comments, comment{text: txt, must: c == clsMust && !g.capMay})
+	g.comments = append(g.comments, comment{text: txt, must: c == clsMust})
 	return txt
 }
 
@@ -207,12 +228,12 @@ func (g *gen) blockComment(c cls, multi bool, label string) string {
 		}
 	}
 	txt := "/*" + body + "*/"
-	g.comments = append(g.comments, comment{text: txt, must: c == clsMust && !g.capMay})
+	g.comments = append(g.comments, comment{text: txt, must: c == clsMust})
 	return txt
 }
 
 func (g *gen) wantComment(c cls, label string) bool {
-	if c == clsNone || g.noCmt {
+	if c == clsNone || g.noCmt || (c == clsMay && g.noMay) {
 		return false
 	}
 	return g.chance(g.cmtPct, label)
@@ -237,6 +258,10 @@ func (g *gen) gap(k gapKind, head cls, next string) {
 	if g.prev == "" { // file start: everything before the first token is a head comment
 		g.fileStart(head)
 		return
+	}
+	if g.pendNL {
+		g.pendNL = false
+		k = gNL
 	}
 	sameOnly := k == gSame || k == gSameSep
 	emitted := false
@@ -388,7 +413,7 @@ func (g *gen) strBody(label string, max int) string {
 	for i := 0; i < n; i++ {
 		sb.WriteString(rapid.SampledFrom(strAlphabet).Draw(g.t, label+"c"))
 	}
-	return sb.String()
+	return g.noTab(sb.String())
 }
 
 // str: a STRING token ("..."); the scanner has no escapes, so no '"' inside.  Non-empty unless
@@ -489,9 +514,6 @@ func (g *gen) dropped(f func()) {
 	g.degenerate++
 	old := g.capMay
 	g.capMay = true
-	if g.trail == clsMust {
-		g.trail = clsMay
-	}
 	f()
 	g.tr(clsMay)
 	g.capMay = old
@@ -742,7 +764,7 @@ func (g *gen) structType(depth int, k gapKind, head cls) {
 }
 
 // forceNL makes the next gap contain a line break.
-func (g *gen) forceNL() { g.pendingNL = true }
+func (g *gen) forceNL() { g.pendNL = true }
 
 // ------------------------------------------------------------------ service
 
@@ -876,33 +898,41 @@ func (g *gen) serviceItem() {
 	g.tok("@handler", gAny, clsMust)
 	g.tok(g.ident("hname"), gSep, clsMay).tr(clsMust)
 	g.tok(rapid.SampledFrom(httpMethods).Draw(g.t, "method"), gAny, clsMust)
+	hasReq, hasResp, semi := g.chance(60, "hasreq"), g.chance(60, "hasresp"), g.chance(15, "semi")
+	reqEmpty := hasReq && g.chance(6, "reqempty")
+	respEmpty := hasResp && g.chance(6, "respempty")
+	// the comment at the end of the route line must survive when it hangs on the last token the
+	// formatter keeps; "()" bodies are dropped on purpose (golden tests), and comments behind ';'
+	// hang on a token the AST does not keep
+	endCls := func(isLast, dropped bool) cls {
+		if isLast && !dropped && !semi {
+			return clsMust
+		}
+		return clsMay
+	}
 	g.path()
-	last := clsMust
-	if g.chance(60, "hasreq") {
-		if g.chance(6, "reqempty") {
+	g.tr(endCls(!hasReq && !hasResp, false))
+	if hasReq {
+		if reqEmpty {
 			g.tok("(", gAny, clsMay)
 			g.tok(")", gAny, clsMay)
-			last = clsMay
 		} else {
 			g.body()
-			last = clsMust
 		}
+		g.tr(endCls(!hasResp, reqEmpty))
 	}
-	g.tr(last)
-	if g.chance(60, "hasresp") {
+	if hasResp {
 		g.tok("returns", gAny, clsMay)
-		if g.chance(6, "respempty") {
+		if respEmpty {
 			g.tok("(", gAny, clsMay)
-			g.tok(")", gAny, clsMay).tr(clsMay)
+			g.tok(")", gAny, clsMay)
 		} else {
 			g.body()
-			g.tr(clsMust)
 		}
+		g.tr(endCls(true, respEmpty))
 	}
-	if g.chance(15, "semi") {
-		// comments behind ';' hang on a token the AST does not keep
-		g.tr(clsMay)
-		g.tok(";", gAny, clsMay).tr(clsMay)
+	if semi {
+		g.tok(";", gAny, clsMay)
 	}
 }
 
@@ -910,23 +940,13 @@ func (g *gen) serviceItem() {
 // inside (a comment right after '/' is a syntax error), whitespace only rarely.
 func (g *gen) path() {
 	spaced := g.chance(8, "pathspaced")
-	k := gSame
-	gp := func() gapKind {
-		if spaced {
-			return gAny
-		}
-		return gapKind(-1)
-	}
-	_ = k
 	emit := func(text string, first bool) {
-		if first {
-			g.tok(text, gSep, clsMay)
-			g.tr(clsNone)
-			return
-		}
-		if gp() == gAny {
+		switch {
+		case first:
+			g.tok(text, gAny, clsMay)
+		case spaced:
 			g.tok(text, gAny, clsNone)
-		} else {
+		default:
 			g.tight(text)
 		}
 		g.tr(clsNone)
@@ -950,7 +970,6 @@ func (g *gen) path() {
 			emit(g.pathIdent(), false)
 		}
 	}
-	g.tr(clsMay)
 }
 
 func (g *gen) pathIdent() string {
